@@ -17,7 +17,18 @@ import numpy as np
 from harness import core, graphwalk
 from harness.props import c13 as base
 
-NAMES = {"state": "a", "povm": "x", "gate": "x90", "mprocess": "x-type2"}
+NAMES = {"state": "a", "povm": "x", "gate": "x90", "mprocess": "x-type2", "lindbladian": "hk"}
+
+
+def source(kind, c):
+    """the catalogue object a slot starts from (a dissipative physical generator for the Lindbladian kind)."""
+    from quara.objects.qoperation_typical import generate_qoperation
+    if kind != "lindbladian":
+        return generate_qoperation(mode=kind, name=NAMES[kind], c_sys=c)
+    from quara.objects.effective_lindbladian import generate_effective_lindbladian_from_hk
+    h = np.array([[0.3, 0.1 - 0.2j], [0.1 + 0.2j, -0.3]])
+    k = np.array([[0.5, 0.1, 0.0], [0.1, 0.3, 0.05j], [0.0, -0.05j, 0.2]])
+    return generate_effective_lindbladian_from_hk(c, h, k)
 
 
 _SYS = {}
@@ -58,7 +69,7 @@ def build(kind, c, val, order):
     from quara.objects.povm import Povm
     from quara.objects.gate import Gate
     from quara.objects.mprocess import MProcess
-    src = generate_qoperation(mode=kind, name=NAMES[kind], c_sys=c)
+    src = source(kind, c)
     arrs = [np.array(a, dtype=np.float64) if val == "orig" else np.zeros(np.shape(a), dtype=np.float64) for a in arrays(src)]
     kw = dict(is_physicality_required=(val == "orig"), mode_proj_order=order)
     if kind == "state":
@@ -67,6 +78,9 @@ def build(kind, c, val, order):
         return Povm(c, arrs, **kw)
     if kind == "gate":
         return Gate(c, arrs[0], **kw)
+    if kind == "lindbladian":
+        from quara.objects.effective_lindbladian import EffectiveLindbladian
+        return EffectiveLindbladian(c, arrs[0], **kw)
     return MProcess(c, arrs, **kw)
 
 
@@ -86,6 +100,9 @@ def rebuild(z, kind):
         return Povm(c, arrs, **kw)
     if kind == "gate":
         return Gate(c, arrs[0], **kw)
+    if kind == "lindbladian":
+        from quara.objects.effective_lindbladian import EffectiveLindbladian
+        return EffectiveLindbladian(c, arrs[0], **kw)
     return MProcess(c, arrs, shape=tuple(z.shape), **kw)
 
 
@@ -102,6 +119,9 @@ def read(o, kind, name):
             return [o.vec, o.to_density_matrix(), o.to_density_matrix_with_sparsity(), o.calc_eigenvalues()]
         if kind == "povm":
             return [list(o.vecs), o.matrices(), o.matrices_with_sparsity(), o.matrix(0), o.calc_eigenvalues()]
+        if kind == "lindbladian":
+            return [o.hs, o.calc_h_mat(), o.calc_j_mat(), o.calc_k_mat(), o.calc_h_part(), o.calc_j_part(), o.calc_k_part(), o.calc_d_part(),
+                    o.calc_k_part(mode_basis="comp_basis"), o.is_tp(), o.is_cp(), o.calc_k_mat()]
         if kind == "gate":
             return [o.hs, o.to_choi_matrix(), o.to_choi_matrix_with_dict(), o.to_choi_matrix_with_sparsity(), o.to_process_matrix(),
                     o.convert_to_comp_basis()]
@@ -134,6 +154,18 @@ def read(o, kind, name):
     raise core.MachineryError("unknown read " + name)
 
 
+def poison(val, own):
+    if isinstance(val, np.ndarray):
+        if val.dtype != object and val.flags.writeable and val.size and not any(np.shares_memory(val, a) for a in own):
+            try:
+                val += 1.0
+            except Exception:
+                pass
+    elif isinstance(val, (list, tuple)):
+        for x in val:
+            poison(x, own)
+
+
 class Replayer:
     def __init__(self, chk):
         self.chk = chk
@@ -153,7 +185,7 @@ class Replayer:
         c = _sys("main")
         W = {}
         for kind, slots in st.items():
-            main = generate_qoperation(mode=kind, name=NAMES[kind], c_sys=c)
+            main = source(kind, c)
             cp = main.copy() if slots["copy"]["val"] != "none" else None
             for o, s in ((main, slots["main"]), (cp, slots["copy"])):
                 if o is None:
@@ -194,6 +226,9 @@ class Replayer:
                                   "object derived from the %s object (value %s): %s does not hold" % (kind, tr["res"]["val"], ", ".join(failed)), ctx)
                     return False
                 res = base.digest(val)
+                # what a read returns belongs to the caller: writing into it must not reach the object (checked by the snapshots
+                # and by every later read).  Arrays that ARE the object's value (attribute getters) are left alone.
+                poison(val, arrays(o))
             elif act == "SetZero":
                 o.set_zero()
             elif act == "SetOrder":
@@ -251,7 +286,7 @@ class Replayer:
 def run_part(chk, rng):
     t = chk.tier
     chk.tlc("mc/MC_ObjLife", "mc/MC_ObjLife_%s.cfg" % t, workers=16, label="MC_ObjLife " + t)
-    pairs = ["SP", "GM"] if t == "quick" else ["SP", "GM", "SG", "PM", "SM", "PG"]
+    pairs = ["SP", "GM", "LG"] if t == "quick" else ["SP", "GM", "SG", "PM", "SM", "PG", "LG", "LS"]
     total = 0
     for p in pairs:
         r = chk.tlc("mc/MC_ObjLife", "mc/MC_ObjLife_%s_%s_emit.cfg" % (p, t), workers=1, label="MC_ObjLife %s emit %s" % (p, t))
